@@ -95,6 +95,11 @@ func (s *socket) send() {
 		c.lastPipe = p
 		if c.resendTime > 0 {
 			id := c.reqID
+			if c.resendTimer != nil {
+				// e.g. a re-send caused by losing the pipe: the timer
+				// armed by the previous transmission must not fire too.
+				c.resendTimer.Stop()
+			}
 			c.resendTimer = time.AfterFunc(c.resendTime, func() {
 				c.resendMessage(id)
 			})
